@@ -33,6 +33,10 @@ TRUSTED_BASE = [
     "extraction: Coq extraction plugin with ExtrOcamlBasic only (Extract Inductive bool/option/unit/list/prod/sumbool/sumor, "
     "Extract Inlined Constant fst/snd/andb/orb/negb as shipped; no Extract Constant of ours), OCaml 4.13.1, driver/main.ml",
     "correspondence harness (harness/*.py): shim recording library-boundary calls, sandbox, generators, canonicalisation; it is testing",
+    "world-level theorems assume the file-system relation World.effect (paths are strings: no symlink aliasing; OpenExcl/Remove/Move atomic on "
+    "failure; trees stay trees); its executable fragment (World.wapply, proved to be an instance: WorldProofs.wapply_effect) is compared with the "
+    "before/after snapshots of every recorded run (world conformance tie, harness/worldtie.py)",
+    "theorems over 'every run' assume well-typed answers (Prog.valid_res); CoqHammer's sauto is used as a tactic in Proofs/ConcProofs.v only",
     "modelled, not verified: all of trash-cli (hand-written Coq model), CPython 3.12 library functions it calls "
     "(urllib.parse.quote/unquote, _strptime, posixpath, fnmatch, int(), shutil.move/rmtree, os.makedirs), the Linux VFS",
 ]
